@@ -50,6 +50,18 @@ CHECKS = {
  "C14": dict(cat="exploration", engine="closesim", ref="5/C14",
    text="After a successful Run with 0-12 closers App.Close runs inside the bubble. Hook H3 parks every goroutine App.Close starts before it invokes its closer; slow closers park again inside Close(), fast ones return at once; a seed-chosen subset fails. The scheduler releases one task at a time in a seeded order. Invariants at every quiescent point: all closer goroutines exist before anything is released, a released closer is always invoked whatever the others did, Close has not returned while any closer is pending; at the end every closer ran exactly once and Close returned (bounded liveness, no wall clock).",
    note="synctest quiescence detection trusted", technique="deterministic simulation (closesim): App.Close in a testing/synctest bubble, closers parked at start and inside Close, seeded release order and failing subset; invariants at every quiescent point"),
+ "C11": dict(cat="exploration", engine="startsim", ref="5/C11",
+   text="Twin programs - every tagged field declared directly vs the same fields inside anonymous, untagged, by-value embedded structs (depth 1-3, exported and unexported carriers) - run under identical picks: same outcome, same wiring on every non-tied point, same bound configuration, same tag records. Frame fields of six kinds carry sentinels that must survive every run. 0-2 custom tag scanners (parked and interleaved inside the parallel scanning phase) must receive exactly the exported fields carrying their tag, with value and arguments.",
+   note="schedule dependence is weak by design (each scanner goroutine works on its own definition); dominated by program generation, claimed for the phase in which scanning runs concurrently", technique=STARTSIM + "; oracle: twin equivalence, frame sentinels, recording tag processor"),
+ "C15": dict(cat="exploration", engine="startsim", ref="5/C15",
+   text="Seeded source sets (raw documents, real FileLoader on files written into the run's scratch directory, real ArgsLoader over a simulated argv, simulated loaders of all order classes) with overlapping and disjoint key trees, added through every option in a generated order, with rare injected source faults. Oracle: reference deep merge in contract order (all orders the contract admits), compared with App.Get for every leaf and with a prefix-bound struct.",
+   note="precedence is judged on fault-free source sets; viper is trusted for YAML decoding", technique="deterministic simulation (startsim, configuration slice) with injected source faults; oracle: reference merge model"),
+ "C18": dict(cat="exploration", engine="startsim", ref="5/C18",
+   text="Seeded components with configuration fields from a fixed menu (placeholders, defaults, prop shorthand, #{${a}+${b}}, #{${a}*${b}}, prefix-bound values, literals; optional validate constraints) next to user instantiation-aware processors of all order classes; the schedule permutes the arrival order of all processors at the unstable sorter. Oracle: a small evaluator of the menu; Run fails exactly when a bound value violates its constraint or a required value is missing.",
+   note="narrow value domain by design: the biconditional over arbitrary values and expressions is input generation, outside this technique", technique="deterministic simulation (startsim, configuration slice); oracle: menu evaluator (placeholder -> expression -> bind -> validate)"),
+ "C20": dict(cat="exploration", engine="racesim+linsim", ref="5/C20",
+   text="racesim: generated programs with 8-60 components, 1-3 custom scanners and closers run with the scheduler in parallel mode under the Go race detector; several scanner invocations / closers fail at the same time; zero reports demanded. linsim: the concurrent utilities compiled from a scratch copy with a yield point before every statement; seeded single-runner interleavings of 2-4 clients; porcupine linearizability check against a sequential map / set, with Range as one step and with Range interleavable; plus the plain 'two callers never both win' invariant.",
+   note="the race detector's happens-before analysis, porcupine and Go's sync.Map are trusted; each call into sync.Map is one atomic step", technique="deterministic simulation: parallel-wave release under the race detector (racesim) + cooperative scheduling at AST-inserted yield points with porcupine (linsim)"),
  "C10": dict(cat="exploration", engine="startsim", ref="5/C10",
    text="Metamorphic sweep: each generated program is started under K schedules (canonical, reversed, random: registration permutation x three enumeration orders x scan interleaving). Same success/failure for programs without tied points, same target on every non-tied point, agreement with the start-outcome model where it has a verdict.",
    note="error texts are never compared; with substitution only cross-run stability is demanded", technique=STARTSIM + "; oracle: cross-schedule comparison (metamorphic)"),
@@ -61,10 +73,6 @@ NA = [
  ("C19", "pure parsing function of one string (DESIGN.md section 6)"),
 ]
 PENDING = {
- "C11": "check under construction in this session (twins + frame)",
- "C15": "check under construction in this session (config merge model)",
- "C18": "check under construction in this session (config menu evaluator)",
- "C20": "check under construction in this session (racesim + linsim)",
 }
 
 def main():
@@ -99,6 +107,10 @@ def main():
         "engines": [
             {"name": "startsim", "path": "/verif/sim/engine", "serves_properties": sorted(p for p in CHECKS if "startsim" in CHECKS[p]["engine"] or CHECKS[p]["engine"] == "closesim"),
              "kind_free_text": "whole container life inside a testing/synctest bubble; seeded Chooser decides every enumeration order, registration order and which parked goroutine runs; generated Go programs; closesim is its Close phase"},
+            {"name": "racesim", "path": "/verif/sim/engine (parallel mode)", "serves_properties": ["C20"],
+             "kind_free_text": "startsim harness built with -race, scheduler releases parked tasks in waves; race detector as oracle"},
+            {"name": "linsim", "path": "/verif/sim/engine/linsim.go", "serves_properties": ["C20"],
+             "kind_free_text": "go/ast-inserted yield points in a scratch copy of util/sync2 and util/list, single-runner seeded scheduling, porcupine"},
             {"name": "regsim", "path": "/verif/sim/engine/regsim.go", "serves_properties": ["C04"],
              "kind_free_text": "generated creation trees driven directly against the real singleton cache, every failure position enumerated"},
         ],
